@@ -731,6 +731,8 @@ func (t *Teamserver) EventListenerError(ListenerName string, Error error) {
 	t.EventBroadcast("", pk)
 
 	// also remove the listener from the init packages.
+	t.EventsListMtx.Lock()
+	defer t.EventsListMtx.Unlock()
 	for EventID := range t.EventsList {
 		if t.EventsList[EventID].Head.Event == packager.Type.Listener.Type {
 			if t.EventsList[EventID].Body.SubEvent == packager.Type.Listener.Add {
@@ -808,6 +810,9 @@ func (t *Teamserver) RemoveClient(ClientID string) {
 
 func (t *Teamserver) EventAppend(event packager.Package) []packager.Package {
 
+	t.EventsListMtx.Lock()
+	defer t.EventsListMtx.Unlock()
+
 	// some sanity check
 	if event.Head.Event == 0 {
 		return t.EventsList
@@ -822,13 +827,21 @@ func (t *Teamserver) EventAppend(event packager.Package) []packager.Package {
 }
 
 func (t *Teamserver) EventRemove(EventID int) []packager.Package {
+	t.EventsListMtx.Lock()
+	defer t.EventsListMtx.Unlock()
+
 	t.EventsList = append(t.EventsList[:EventID], t.EventsList[EventID+1:]...)
 
 	return append(t.EventsList[:EventID], t.EventsList[EventID+1:]...)
 }
 
 func (t *Teamserver) SendAllPackagesToNewClient(ClientID string) {
-	for _, Package := range t.EventsList {
+	// replay a snapshot: sending can block, recording must not wait for it
+	t.EventsListMtx.Lock()
+	Packages := append([]packager.Package(nil), t.EventsList...)
+	t.EventsListMtx.Unlock()
+
+	for _, Package := range Packages {
 		err := t.SendEvent(ClientID, Package)
 		if err != nil {
 			logger.Error("error while sending info to client("+ClientID+"): ", err)
